@@ -139,6 +139,8 @@ pub enum FileSpec {
     Bytes { content: Vec<u8>, mode: u32 },
     Dir { mode: u32 },
     Symlink { target: String },
+    /// named pipe (empty, nobody has it open)
+    Fifo { mode: u32 },
 }
 
 #[derive(Clone, Debug)]
@@ -160,6 +162,9 @@ pub struct Setup {
     pub remove_files: Vec<String>,
     /// stdin is a pipe fed by a helper task writing these chunks (scheduler-interleaved)
     pub stdin_pipe: Option<Vec<Vec<u8>>>,
+    /// a helper process opens this named pipe (absolute path; create it with `FileSpec::Fifo`) for
+    /// writing and writes these chunks, scheduler-interleaved like `stdin_pipe`
+    pub fifo_feed: Option<(String, Vec<Vec<u8>>)>,
     /// with `stdin_pipe`: the read end is handed to the shell with O_NONBLOCK set
     pub stdin_nonblock: bool,
     /// when every process is blocked and some process is stopped, send it SIGCONT (an outside
@@ -193,6 +198,7 @@ impl Setup {
             preempt: false,
             remove_files: vec![],
             stdin_pipe: None,
+            fifo_feed: None,
             stdin_nonblock: false,
             cont_on_stall: false,
             raise_usr1_at_step: None,
@@ -331,6 +337,17 @@ fn save_file(state: &mut SystemState, path: &str, spec: &FileSpec) {
             body: FileBody::Symlink { target: target.as_str().into() },
             permissions: Mode::ALL_9,
         },
+        FileSpec::Fifo { mode } => Inode {
+            body: FileBody::Fifo {
+                content: Default::default(),
+                readers: 0,
+                writers: 0,
+                pending_open_wakers: Default::default(),
+                pending_read_wakers: Default::default(),
+                pending_write_wakers: Default::default(),
+            },
+            permissions: Mode::from_bits_truncate(*mode as _),
+        },
     };
     // `save` replaces an existing entry; keep an existing directory's children when a Dir spec
     // comes after its children
@@ -440,6 +457,58 @@ pub fn run(setup: &Setup) -> RunResult {
                 let _ = p.set_state(ProcessState::exited(yash_env::semantics::ExitStatus(0)));
             }
         }));
+    }
+    if let Some((path, chunks)) = &setup.fifo_feed {
+        {
+            let mut st = state.borrow_mut();
+            let helper = yash_env::system::r#virtual::Process::fork_from(yash_env::job::Pid(1), &st.processes[&system.process_id]);
+            st.processes.insert(yash_env::job::Pid(3), helper);
+        }
+        let hs = VirtualSystem { state: Rc::clone(&state), process_id: yash_env::job::Pid(3) };
+        let chunks = chunks.clone();
+        let state3 = Rc::clone(&state);
+        let cpath = std::ffi::CString::new(path.as_str()).unwrap();
+        feeder = Some(Box::pin(async move {
+            use yash_env::system::{Close as _, Open as _, Write as _};
+            // blocks (parks on the pipe's wakers) until the shell has opened the other end
+            let opened = hs.open(&cpath, yash_env::system::OfdAccess::WriteOnly, Default::default(), Mode::empty()).await;
+            if let Ok(w) = opened {
+                'outer: for chunk in chunks {
+                    let mut data = &chunk[..];
+                    while !data.is_empty() {
+                        match hs.write(w, data).await {
+                            Ok(n) => data = &data[n..],
+                            Err(_) => break 'outer,
+                        }
+                    }
+                    let mut yielded = false;
+                    std::future::poll_fn(|cx| {
+                        if yielded {
+                            Poll::Ready(())
+                        } else {
+                            yielded = true;
+                            cx.waker().wake_by_ref();
+                            Poll::Pending
+                        }
+                    })
+                    .await;
+                }
+                let _ = hs.close(w);
+            }
+            if let Some(p) = state3.borrow_mut().processes.get_mut(&yash_env::job::Pid(3)) {
+                p.close_fds();
+                let _ = p.set_state(ProcessState::exited(yash_env::semantics::ExitStatus(0)));
+            }
+        }));
+    }
+    if setup.fifo_feed.is_some() {
+        // The writer opens the named pipe before the shell starts: a shell that is the first to
+        // open blocks inside `open`, which a process under `run_virtual` never gets out of (it only
+        // resumes through `select`; the simulator offers no way to wait for a peer opening a FIFO).
+        if let Some(f) = feeder.as_mut() {
+            let mut cx = std::task::Context::from_waker(Waker::noop());
+            let _ = f.as_mut().poll(&mut cx);
+        }
     }
     // stdin of a regular file must not be in append mode for reading from offset 0; the default
     // open file description is fine (offset 0, readable).
